@@ -203,6 +203,8 @@ SUBS = [
     Sub("api", kind="hyp", strategy=cases, body=body_api,
         budget={"quick": 24000, "thorough": 800000},
         desc="BuildAssembly.remap_to_input_assembly + assemblies_with_scaffolds_fused, partition oracle over all returned assemblies"),
+    Sub("small_contig_holes", kind="hyp", strategy=gen.small_contig_hole_case, body=body_api,
+        budget={"quick": 8000, "thorough": 150000}, desc="maps with a hole inside or next to a contig of up to 2.5 texels (both neighbours reach less than about a texel into it)"),
     Sub("cli_tagged", kind="hyp", strategy=tagged_cli_cases, body=body_cli,
         budget={"quick": 320, "thorough": 5000}, desc="tagged maps (Primary mode with merged all_haplotigs file, two haplotypes, piece tags) through pretext-to-asm: partition oracle over ALL files written"),
     Sub("cli", kind="hyp", strategy=lambda: cases(cli=True), body=body_cli,
